@@ -181,7 +181,16 @@ def code_objects(sp):
     return sorted(sp.existing_code_objects.items())
 
 
-def extract_blocks(sp, orig_code):
+def code_tree(code):
+    """Code objects of a module in pre-order (the same order for the plain and the instrumented tree)."""
+    out = [code]
+    for k in code.co_consts:
+        if isinstance(k, types.CodeType):
+            out += code_tree(k)
+    return out
+
+
+def extract_blocks(sp, orig_code, inst_code):
     """For every instrumented code object: per basic block (in bytecode_cfg order) the raw
     element list [("TE"|"TB"|"SL") | ("O", name, lineno, k) | ("A", rec, pos)] where k numbers the
     original instructions of the block, plus the independently recomputed original block."""
@@ -191,18 +200,14 @@ def extract_blocks(sp, orig_code):
     from pynguin.instrumentation import version
     from pynguin.instrumentation.controlflow import ArtificialInstr
 
-    by_name = {}
-
-    def walk(c):
-        by_name.setdefault((c.co_name, c.co_firstlineno), c)
-        for k in c.co_consts:
-            if isinstance(k, types.CodeType):
-                walk(k)
-    walk(orig_code)
+    otree, itree = code_tree(orig_code), code_tree(inst_code)
+    assert len(otree) == len(itree), "instrumentation changed the shape of the code object tree"
+    orig_of = {id(i): (k, o) for k, (o, i) in enumerate(zip(otree, itree))}
     out = {}
     for coid, meta in code_objects(sp):
         c = meta.code_object
-        oc = by_name[(c.co_name, c.co_firstlineno)]
+        tree_index, oc = orig_of[id(c)]
+        assert (oc.co_name, oc.co_firstlineno) == (c.co_name, c.co_firstlineno)
         ocfg = cf.CFG.from_bytecode(version.add_for_loop_no_yield_nodes(Bytecode.from_code(oc)))
         live = {n.index for n in meta.cfg.basic_block_nodes}
         blocks = []
@@ -224,7 +229,8 @@ def extract_blocks(sp, orig_code):
             blocks.append({"index": bi, "live": bi in live, "inst": els, "orig": oels,
                            "next": (meta.cfg.bytecode_cfg.get_block_index(blk.next_block)
                                     if blk.next_block is not None else None)})
-        out[coid] = {"name": c.co_name, "first": c.co_firstlineno, "blocks": blocks, "meta": meta, "ocfg": ocfg}
+        out[coid] = {"name": c.co_name, "first": c.co_firstlineno, "blocks": blocks, "meta": meta, "ocfg": ocfg,
+                     "tree_index": tree_index, "orig_code": oc}
     return out
 
 
@@ -400,6 +406,7 @@ def monitored_call(code, path, spec, events=("LINE", "BRANCH")):
     ns = {"__name__": "gm", "__file__": path}
     lines, branches = set(), []
     out = io.StringIO()
+    index_of = {id(c): k for k, c in enumerate(code_tree(code))}
 
     def on_line(c, line):
         if c.co_filename == path:
@@ -410,7 +417,7 @@ def monitored_call(code, path, spec, events=("LINE", "BRANCH")):
 
     def on_branch(c, off, dest):
         if c.co_filename == path:
-            branches.append((c.co_name, c.co_firstlineno, off, dest))
+            branches.append((index_of.get(id(c), -1), off, dest))
         else:
             return mon.DISABLE
         return None
@@ -419,7 +426,7 @@ def monitored_call(code, path, spec, events=("LINE", "BRANCH")):
 
     def on_start(c, off):
         if c.co_filename == path:
-            starts.add((c.co_name, c.co_firstlineno))
+            starts.add(index_of.get(id(c), -1))
         else:
             return mon.DISABLE
         return None
